@@ -163,14 +163,14 @@ SPECS = {
                       "modelled, not verified: syn (the IR is what syn hands to the analysers), walkdir, tera (templates transcribed by hand, validated by the text comparison), proc_macro2 Display"],
         assumptions=["spec of 'command': top-level fn of a selected file with an attribute path tauri::command or command"],
         rule="random projects of 1..5 files in nested directories (120 quick / 1500 thorough, each in both modes, with 5 configuration variants): commands with value / injected (12 spellings) / channel (3 spellings) parameters, serde structs / enums with attributes, validators, events at every documented placement and receiver form, helper functions, impl blocks and inline modules with command-looking functions, decoys under target/ and .git/, unparsable and empty files; a *safe* stream (2/3) stays inside the property's input domain, an *adversarial* stream (1/3) aims at the known exclusion classes; non-trivial = project with at least one command; distinct = hash of (IR, configuration)", exhaustive={"quick": False, "thorough": False},
-        partial=["C03 holds unconditionally on the model's own file filter; equality of that filter with the statement's (no target/.git *component below the project path*) fails for K03a roots"]),
+        partial=["C03_commands_exactly_statement: the discovered commands are exactly the statement's, for every project whose absolute path has no target/.git component (C03_filter_is_statement); K03a is exactly the failure of that hypothesis"]),
     "C07": dict(pre_lake=_regen, groups=["project"], only_oracles=["c07_declared_exactly_reachable"], excluded_classes=['unsupportedType', 'undefinedNamedType', 'undocumentedItemShape', 'duplicateTypeNames', 'duplicateCommandNames', 'K18a_mappedAndDefined', 'K01a_reservedOrIllegalFnName'], theorems="Typegen.Theorems.C07",
         trusted_base=[LEAN_TB, HARNESS_TB,
                       "project-level tie: the harness renders a project IR to Rust source files, runs the real CommandAnalyzer + generators on them and hands the IR (annotated with the token text proc_macro2 prints for every attribute and the generic tree of every type) to the Lean model; compared: the whole analysis (commands, parameters, channels, events, discovered types, dependency sets) and the text of all four generated files modulo whitespace and the header comment",
                       "modelled, not verified: syn (the IR is what syn hands to the analysers), walkdir, tera (templates transcribed by hand, validated by the text comparison), proc_macro2 Display"],
         assumptions=["reachability spec: identifiers of the type trees (error arm of Result excluded), closed under field types of token-aware serde-derived named-field / unit structs and enums"],
         rule="random projects of 1..5 files in nested directories (120 quick / 1500 thorough, each in both modes, with 5 configuration variants): commands with value / injected (12 spellings) / channel (3 spellings) parameters, serde structs / enums with attributes, validators, events at every documented placement and receiver form, helper functions, impl blocks and inline modules with command-looking functions, decoys under target/ and .git/, unparsable and empty files; a *safe* stream (2/3) stays inside the property's input domain, an *adversarial* stream (1/3) aims at the known exclusion classes; non-trivial = project with at least one command; distinct = hash of (IR, configuration)", exhaustive={"quick": False, "thorough": False},
-        partial=["soundness half (declared => reachable and serde-defined, declared once) and seed completeness proved; completeness of the worklist closure is tied by the oracle on every case"]),
+        partial=["C07_declared_iff: declared = reachable ∩ discovered serde types, both halves proved over the generation model (worklist closure complete with the fuel used); what the *analysis* discovers (lazy resolution over type strings, substring derive test) against the IR-level specification is tied by the oracle on every case (K07b, K07c are its known failures)"]),
     "C09": dict(groups=["project"], only_oracles=["c09_defined_before_use"], excluded_classes=['unsupportedType', 'undefinedNamedType', 'undocumentedItemShape', 'duplicateTypeNames', 'duplicateCommandNames', 'K18a_mappedAndDefined', 'K01a_reservedOrIllegalFnName'], theorems="Typegen.Theorems.C09",
         trusted_base=[LEAN_TB, HARNESS_TB,
                       "project-level tie: the harness renders a project IR to Rust source files, runs the real CommandAnalyzer + generators on them and hands the IR (annotated with the token text proc_macro2 prints for every attribute and the generic tree of every type) to the Lean model; compared: the whole analysis (commands, parameters, channels, events, discovered types, dependency sets) and the text of all four generated files modulo whitespace and the header comment",
@@ -190,7 +190,7 @@ SPECS = {
                       "modelled, not verified: syn (the IR is what syn hands to the analysers), walkdir, tera (templates transcribed by hand, validated by the text comparison), proc_macro2 Display"],
         assumptions=["hypothesis of the statement: every named type is defined as a serde struct/enum or mapped (class undefinedNamedType is outside the domain)"],
         rule="random projects of 1..5 files in nested directories (120 quick / 1500 thorough, each in both modes, with 5 configuration variants): commands with value / injected (12 spellings) / channel (3 spellings) parameters, serde structs / enums with attributes, validators, events at every documented placement and receiver form, helper functions, impl blocks and inline modules with command-looking functions, decoys under target/ and .git/, unparsable and empty files; a *safe* stream (2/3) stays inside the property's input domain, an *adversarial* stream (1/3) aims at the known exclusion classes; non-trivial = project with at least one command; distinct = hash of (IR, configuration)", exhaustive={"quick": False, "thorough": False},
-        partial=["closedness of type references is tied by the oracles; proved: index re-exports, distinct declared names, params declarations, zod aliases"]),
+        partial=["closedness proved over the generation model under the statement's hypothesis (AllDefined: every unmapped named type is a discovered serde type): C02_params/return/event/struct_refs_declared, C02_zod_*_schema_refs; the real files are checked by the oracles on every case; text-level closedness after add_types_prefix rests on the K02a exclusion"]),
 }
 
 PROC_TB = "process-level tie: the real cargo-tauri-typegen binary (built from /repo's working tree into /verif/.build) and BuildSystem::generate_at_build_time (via the harness) run in sandbox directories under /verif/.work; observations (exit status, action, files written by mtime, cache record) compared with the Lean run model through driver op `history`; C08 oracle = byte comparison with a forced generation into an empty directory"
